@@ -28,7 +28,7 @@ for d in sorted(glob.glob(src + '/[0-9]*')):
     demo_sh = os.path.join(d, 'demo.sh') if os.path.exists(d + '/demo.sh') else None
     def run_demo():
         if demo_sh:
-            return sh('sh %s %s' % (demo_sh, wt), timeout=900)[0]
+            return sh('bash %s %s' % (demo_sh, wt), timeout=900)[0]
         pkg = meta.get('demo_pkg', '').strip('./') or 'functions'
         for f in demo_go:
             shutil.copy(os.path.join(d, f), os.path.join(wt, pkg, 'zz_verif_' + f))
